@@ -84,6 +84,7 @@ def run_one(seed, preset=None, tier="quick", want_case=False):
     viol, names, history = [], [name], []
     baseline = {}
     flooded = [0]
+    bigflooded = [0]
     out = None
     digests = []
     try:
@@ -106,9 +107,16 @@ def run_one(seed, preset=None, tier="quick", want_case=False):
         for step in range(nsteps):
             if step == flood_at:
                 # push the default LRU(512) past its capacity: every earlier entry is evicted
+                big = tape.sub("bigflood").chance(50)
+
                 async def flood():
                     for n in range(520):
                         await engine.execute("{ __typename } # flood %d" % n)
+                    if big:
+                        # a long tail of distinct REFUSED documents as well (many more than any small table holds)
+                        for n in range(4200):
+                            await engine.execute("{ nopeField%d }" % n)
+                        bigflooded[0] = 1
                 from simv.simloop import SimLoop as _SL, run_sim as _rs
                 _rs(_SL(tape.sub("flood"), "fifo", 0, "none"), flood())
                 flooded[0] = 1
@@ -164,7 +172,8 @@ def run_one(seed, preset=None, tier="quick", want_case=False):
     r0["metrics"] = {"history_steps": len(history), "repeated_requests": repeats, "cache_" + cache: 1}
     if memo is not None:
         r0["metrics"].update({"memo_hits": memo.hits, "memo_misses": memo.misses})
-    r0["faults"] = {"cache_entry_forgotten": memo.forgotten if memo is not None else 0, "lru512_flooded_past_capacity": flooded[0]}
+    r0["faults"] = {"cache_entry_forgotten": memo.forgotten if memo is not None else 0, "lru512_flooded_past_capacity": flooded[0],
+                    "flooded_with_4200_refused_documents": bigflooded[0]}
     for x in pool:
         if x.plan is not None:
             for k2, n in x.plan.faults_fired.items():
